@@ -89,7 +89,14 @@ func tagOf(v any) string {
 	return fmt.Sprintf("other:%T", v)
 }
 
+// ghostStarts counts Start() calls on tasks of a lane whose Wait() had already returned when the call began - whoever made
+// the call (e.g. a lane created later that inherited channels of the old one).  finish() of the next scenario reports them.
+var ghostStarts atomic.Int32
+
 func (t *task) Start() {
+	if t.sc.waitReturned.Load() {
+		ghostStarts.Add(1)
+	}
 	if t.sc.quiet.Load() {
 		t.starts.Add(1)
 		if t.gated {
@@ -150,6 +157,7 @@ type scenario struct {
 	note         string
 	longTO       bool
 	extraWaiters int // further goroutines blocked in Wait() while the last tasks finish
+	waitReturned atomic.Bool
 }
 
 func goid() int64 {
@@ -307,6 +315,8 @@ type result struct {
 	LongTO bool `json:"longto"`
 	// hook events (protocol steps of the lane's goroutines) were recorded while the lane shut down
 	Hooks bool `json:"hooks"`
+	// Start() calls, seen since the previous scenario ended, on tasks of lanes whose Wait() had returned before the call
+	Ghosts int `json:"ghosts"`
 }
 
 var scenarioSeq atomic.Int32
@@ -353,6 +363,7 @@ func (s *scenario) finish(cancelFirst bool) result {
 			b := s.buf()
 			b.Emit(ev{E: "wait.begin"})
 			s.tl.Wait()
+			s.waitReturned.Store(true)
 			b.Emit(ev{E: "wait.end"})
 			close(done)
 		}()
@@ -382,7 +393,8 @@ func (s *scenario) finish(cancelFirst bool) result {
 	case <-time.After(3 * time.Second):
 	}
 	s.quiesce("final")
-	r := result{Kind: s.kind, N: s.n, Q: s.q, Note: s.note, Evs: s.log.Merge(), LongTO: s.longTO, Hooks: !s.hookQuiet.Load() && !s.quiet.Load()}
+	r := result{Kind: s.kind, N: s.n, Q: s.q, Note: s.note, Evs: s.log.Merge(), LongTO: s.longTO, Hooks: !s.hookQuiet.Load() && !s.quiet.Load(),
+		Ghosts: int(ghostStarts.Swap(0))}
 	for _, t := range all {
 		if t.starts.Load() > 1 {
 			r.Twice = append(r.Twice, t.id)
@@ -755,6 +767,7 @@ func runWaitAfterNew(rng *rand.Rand, n, q int, pre bool) result {
 	b := s.buf()
 	b.Emit(ev{E: "wait.begin"})
 	s.tl.Wait()
+	s.waitReturned.Store(true)
 	b.Emit(ev{E: "wait.end"})
 	s.waited = true
 	return s.finish(false)
@@ -946,6 +959,42 @@ func runBurstProbe(rng *rand.Rand, rounds int) result {
 	return s.finish(false)
 }
 
+// runLoneBursts: a single lane (nobody else can take over), bursts of a few tiny tasks, after each burst every accepted task
+// has to start although no further push follows (a worker or queue goroutine that went to sleep on the wrong channel between
+// two tasks of a burst is woken only by the next push - which never comes).  No per-step events.
+func runLoneBursts(rng *rand.Rand, budget time.Duration) result {
+	s := newScenario("lonebursts", 1, 8, context.Background(), func(s *scenario) { s.quiet.Store(true) })
+	s.tl.SetTimeout(2 * time.Second)
+	accepted, started, rounds := 0, 0, 0
+	end := time.Now().Add(budget)
+	for time.Now().Before(end) && accepted-started < 3 {
+		rounds++
+		nb := 2 + rng.Intn(5)
+		ts := make([]*task, 0, nb)
+		for k := 0; k < nb; k++ {
+			t := &task{sc: s}
+			if s.tl.PushTask(t, 0) == nil {
+				ts = append(ts, t)
+			}
+		}
+		accepted += len(ts)
+		deadline := time.Now().Add(time.Second)
+		for _, t := range ts {
+			for t.starts.Load() == 0 && time.Now().Before(deadline) {
+				runtime.Gosched()
+			}
+			if t.starts.Load() > 0 {
+				started++
+			}
+		}
+	}
+	s.note = fmt.Sprintf("n=1 q=8: %d bursts of 2..6 tiny tasks, each burst awaited", rounds)
+	st := s.tl.Status()
+	s.quiet.Store(false)
+	s.buf().Emit(ev{E: "burst.summary", G: accepted, B: started, T: 0, Pend: accepted - started, V: tagOf(st.LastPanic)})
+	return s.finish(false)
+}
+
 func runPanics(rng *rand.Rand) result {
 	n, q := 2+rng.Intn(2), 1+rng.Intn(2)
 	bar := &sync.WaitGroup{}
@@ -1005,6 +1054,7 @@ func main() {
 	ncrowd := flag.Int("crowded", 2, "repetitions of the cancellation with many sibling contexts")
 	nburst := flag.Int("burst", 4, "")
 	burstPer := flag.Int("burstper", 60, "tasks per producer in a burst scenario")
+	loneMs := flag.Int("lonebursts", 1500, "milliseconds of the single-lane burst scenario")
 	pick := flag.String("pick", "", "extras X14 only: ShortestQueueIndex cases (quick | thorough)")
 	flag.Parse()
 	debug.SetMaxStack(64 << 20)
@@ -1036,7 +1086,8 @@ func main() {
 				w.Put(runAtRest(rng, n, q, n, false))  // every worker pinned and every lane filled to the brim: the upper bound of PendingTask
 			}
 		}
-		w.Put(runAtRest(rng, 40, rep%2, 40, false)) // a wide lane (more than 32 workers), everything full
+		w.Put(runAtRest(rng, 40, rep%2, 40, false))                  // a wide lane (more than 32 workers), everything full
+		w.Put(runAtRest(rng, 20+13*(rep%2), 1, 19+13*(rep%2), true)) // a wide lane, everything pushed to lane 0: every idle worker, however far away, has to take over
 		w.Put(runWide(rng, []int{300, 1100}[rep%2], 1+rep%2))
 		for _, n := range []int{2, 3} {
 			for stuck := 0; stuck < n; stuck++ {
@@ -1065,6 +1116,7 @@ func main() {
 		w.Put(runWaitAfterNew(rng, n, i%2, false))
 	}
 	w.Put(runBurstProbe(rng, *nprobe))
+	w.Put(runLoneBursts(rng, time.Duration(*loneMs)*time.Millisecond))
 	w.Put(runPanicShare(rng, 2))
 	w.Put(runPanicShare(rng, 3))
 	w.Put(runMarathon(rng, 1+int(vio.Seed())%2))
